@@ -329,6 +329,25 @@ def renumber(rep, prog, rule="C08.renumber-after-resize", only=None):
                 changes.append(n)
             if n.get("k") == "CallExpr" and n.get("callee") == "remove_index" and e1.handle_key(call_args(n)[0]) == lst_key:
                 changes.append(n)
+        # a store into a slot of the list moves a cell to that position: it needs 'list[e]->set_local_id(e)' for the same e
+        slot_stores = []
+        for n in walk(fn["body"]):
+            if n.get("k") == "CXXOperatorCallExpr" and n.get("op") == "=" and len(n.get("c", [])) >= 3:
+                lhs = strip(n["c"][1])
+                if lhs.get("k") == "CXXOperatorCallExpr" and lhs.get("op") == "[]" and len(lhs.get("c", [])) >= 3 and e1.handle_key(lhs["c"][1]) == lst_key:
+                    slot_stores.append((n, render(lhs["c"][2]).replace(" ", "")))
+        slot_renumber = {}
+        for n in walk(fn["body"]):
+            if n.get("k") == "CXXMemberCallExpr" and n.get("callee") == "cell::set_local_id":
+                o = call_obj(n)
+                o = strip(o) if isinstance(o, dict) else {}
+                while o.get("k") in ("CXXOperatorCallExpr",) and o.get("op") in ("->", "*") and len(o.get("c", [])) >= 2:
+                    o = strip(o["c"][1])
+                a_ = call_args(n)
+                if o.get("k") == "CXXOperatorCallExpr" and o.get("op") == "[]" and len(o.get("c", [])) >= 3 and e1.handle_key(o["c"][1]) == lst_key and a_:
+                    idx = render(o["c"][2]).replace(" ", "")
+                    if render(a_[0]).replace(" ", "") == idx:
+                        slot_renumber.setdefault(idx, []).append(n)
         loops = [n for n in walk(fn["body"]) if _is_renumber_loop(n, lst_key, fn=fn) is True]
         for n in walk(fn["body"]):
             if _is_renumber_loop(n, lst_key, fn=fn) == "partial":
@@ -344,12 +363,24 @@ def renumber(rep, prog, rule="C08.renumber-after-resize", only=None):
                 u = cfg.unit_of.get(id(x))
                 if u is not None:
                     loop_units.add(u)
+        for c, idx in slot_stores:
+            changes.append(c)
+        slot_idx = {id(c): idx for c, idx in slot_stores}
         for c in changes:
+            if c.get("callee", "").endswith("::erase") and _is_tail_truncation(fn, c, lst_key):
+                rep.ok(rule, prog, fn, c, "%s drops the tail of the list: the cells that remain keep their positions" % short(c, 60))
+                continue
             u = cfg.unit_of.get(id(c))
             seen, stack, escapes = set(), list(cfg.succ[u]) if u is not None else [], False
+            stops = set(loop_units)
+            if id(c) in slot_idx:
+                for r_ in slot_renumber.get(slot_idx[id(c)], []):
+                    ur = cfg.unit_of.get(id(r_))
+                    if ur is not None and fi.enclosing(r_, ("CompoundStmt",)) is fi.enclosing(c, ("CompoundStmt", )) or (ur is not None and _same_sequence(fi, c, r_)):
+                        stops.add(ur)
             while stack:
                 x = stack.pop()
-                if x in seen or x in loop_units:
+                if x in seen or x in stops:
                     continue
                 seen.add(x)
                 if x == cfg.exit:
@@ -364,6 +395,28 @@ def renumber(rep, prog, rule="C08.renumber-after-resize", only=None):
             else:
                 rep.violation(rule, prog, fn, c, "population changed without renumbering (%s)" % c.get("callee", "").split("::")[-1],
                               "%s changes the size/order of the population but a path reaches the end of %s without 'list[i]->set_local_id(i)': stale local ids are then stored in couplings and dereferenced through the list (wrong cell / out of range)" % (short(c, 80), qn))
+
+
+def _same_sequence(fi, a, b):
+    """b is a statement of a block that encloses a (a may sit in a nested if of that block)"""
+    blk = fi.enclosing(b, ("CompoundStmt",))
+    return blk is not None and any(p is blk for p, _s, _c in fi.ancestors(a))
+
+
+def _is_tail_truncation(fn, call, lst_key):
+    """list.erase(first, list.end()) where `first` is plain iterator arithmetic on list.begin() (not the result of a
+    remove/partition algorithm, which reorders): the elements in front of `first` stay where they are"""
+    from ..model import def_chain
+    a = call_args(call)
+    if len(a) != 2:
+        return False
+    last = [x for x in walk(a[1]) if x.get("k") == "CXXMemberCallExpr" and x.get("callee", "").endswith("::end") and e1.handle_key(call_obj(x)) == lst_key]
+    if not last:
+        return False
+    calls = [x for d_ in def_chain(fn, a[0]) for x in walk(d_) if x.get("k") in ("CallExpr", "CXXMemberCallExpr")]
+    begins = [x for x in calls if x.get("k") == "CXXMemberCallExpr" and x.get("callee", "").endswith("::begin") and e1.handle_key(call_obj(x)) == lst_key]
+    others = [x for x in calls if x not in begins and not (x.get("k") == "CXXMemberCallExpr" and x.get("callee", "").split("::")[-1] in ("size", "begin", "end"))]
+    return bool(begins) and not others
 
 
 def _witness_ok(fi, fn, change, loops, lst_key):
